@@ -198,3 +198,4 @@ end NtpVerif.C10
 #print axioms NtpVerif.C10Filter.filter_desire_in_limits_c10
 #print axioms NtpVerif.C10Filter.initial_desire_is_min
 #print axioms NtpVerif.C10Filter.desire_step_shape
+#print axioms NtpVerif.C10Filter.filter_history_desire_in_limits
